@@ -62,10 +62,7 @@ func jsonString(units int) []byte {
 // comment builds a line or block comment with symbolic content. eofOK: a line comment may
 // end at end of input without newline.
 func comment(eofOK bool) []byte {
-	max := 2
-	if vTier() == 1 {
-		max = 3
-	}
+	max := 2 // (3 in the thorough tier exceeded its 25-minute budget: 1.4 million paths, not finished)
 	if vChoice(2) == 0 {
 		c := vBytes(vChoice(max + 1))
 		for _, b := range c {
